@@ -113,6 +113,9 @@ LEGACY_TOL = 1e-12
 BOUND_TOL = 1e-12
 FLOAT_EPS = float(np.finfo(np.float64).eps)
 ARRAY_REPEATS = 25
+LONG_N = 3000              # above this length the inputs are drawn from a pool of POOL distinct values (see _evaluate_array)
+POOL = 4096
+MAX_N = 3 * 2 ** 20 + 8
 
 RULE = ('Hypothesis draws four 64-bit words per case, decoded into: model (7), w in 10^[-12,2] (or a guard edge / out-of-range '
         'value), mu in 10^[3,13], eta in 10^[0,30] (half of the cases tied to w tau in 10^[-2,2]), alpha in (0.02,0.98), zeta in '
@@ -295,6 +298,10 @@ def _decode(words):
         # array case (about 300 of 20300)
         w, mu, eta = _gen_point(r)
         n = r.pick([1, 2, 3, 7, 16, 17, 64, 100, 257, 1000, 2999, 3000]) if r.below(2) else 1 + r.below(3000)
+        if r.below(30) == 0:
+            # long array (about 10 per quick run): around a power of two (plausible internal block / chunk sizes) or
+            # anywhere in (2^20, 3 x 2^20]
+            n = (2 ** (12 + r.below(10)) + r.pick([-1, 0, 1, 3])) if r.below(2) else (2 ** 20 + 1 + r.below(2 ** 21))
         return {'kind': 'array', 'model': model, 'args': args, 'which': r.pick(['frequency', 'modvisc']),
                 'n': int(n), 'threads': int(r.pick([1, 2, 3, 4, 5, 6, 7, 8, 9, 10, 11, 12, 13, 14, 15, 16])),
                 'w': w, 'mu': mu, 'eta': eta, 'words': [int(r.u64()), int(r.u64())]}
@@ -350,6 +357,18 @@ def fixed_cases(tier):
             for n, k in ((3000, 16), (17, 4), (1, 8)):
                 out.append({'kind': 'array', 'model': model, 'args': args, 'which': which, 'n': n, 'threads': k,
                             'w': 1e-6, 'mu': 5.0e10, 'eta': 1.0e18, 'words': [12345 + n, 678 + k]})
+    # long arrays around and beyond plausible internal block sizes, both helpers (thorough: more lengths, every model)
+    lengths = [2 ** 16 + 1, 2 ** 20, 2 ** 20 + 1, 2 ** 21 + 3]
+    long_models = ['Maxwell', 'SundbergCooper']
+    if tier == 'thorough':
+        lengths += [2 ** 12 + 1, 2 ** 14, 2 ** 18 + 1, 2 ** 19, 2 ** 20 - 1, 2 ** 21, 2 ** 21 + 1, 3 * 2 ** 20]
+        long_models = MODELS
+    for im, model in enumerate(long_models):
+        for il, n in enumerate(lengths):
+            for iw, which in enumerate(('frequency', 'modvisc')):
+                out.append({'kind': 'array', 'model': model, 'args': list(R.DEFAULT_ARGS[model]), 'which': which, 'n': n,
+                            'threads': [1, 4, 16, 2, 8, 3][(im + il + iw) % 6], 'w': 1e-6, 'mu': 5.0e10, 'eta': 1.0e18,
+                            'words': [777 + n, 31 + im + 2 * iw]})
     out.append({'kind': 'legacy_jit', 'words': [20240607, 7], 'n': 240})
     out.append({'kind': 'omp_env', 'threads': 4, 'n': 1500})
     return out
@@ -359,7 +378,7 @@ def required_labels(tier):
     lb = ['model:' + m for m in MODELS]
     lb += ['window:transition', 'window:low', 'window:high', 'edge:zero_frequency', 'edge:inf_frequency', 'edge:tiny_frequency',
            'edge:huge_frequency', 'edge:near_frequency_guard', 'edge:small_modulus', 'negative_frequency',
-           'beyond_physical_range', 'route:change_args', 'route:change_args_partial', 'route:alias', 'array:frequency', 'array:modvisc',
+           'beyond_physical_range', 'route:change_args', 'route:change_args_partial', 'route:alias', 'array:frequency', 'array:modvisc', 'array:long', 'len:>2^20', 'len:2^16..2^20',
            'legacy:compared', 'legacy:guard_excluded', 'legacy:jitted', 'highfreq:checked', 'omp_env']
     lb += ['threads:%d' % k for k in range(1, 17)]
     return lb
@@ -391,7 +410,7 @@ def in_domain(case):
         if math.isnan(w):
             return False
         if k == 'array':
-            return 1 <= case['n'] <= 3000 and 1 <= case['threads'] <= 16 and case['which'] in ('frequency', 'modvisc') \
+            return 1 <= case['n'] <= MAX_N and 1 <= case['threads'] <= 16 and case['which'] in ('frequency', 'modvisc') \
                 and 1e-12 <= w <= 1e2 and 1e3 <= mu
         if case.get('change_from') is not None and len(case['change_from']) != len(args):
             return False
@@ -414,7 +433,7 @@ def shrink_hints(case):
             c['args'] = list(d)
             out.append(c)
     if case.get('kind') == 'array':
-        for n in (1, 2, 16, case['n'] // 2):
+        for n in (1, 2, 16, 2 ** 16 + 1, 2 ** 20 + 1, case['n'] // 2, case['n'] - 1):
             if 1 <= n < case['n']:
                 c = dict(case)
                 c['n'] = n
@@ -641,16 +660,52 @@ def _set_threads(k):
     return g.omp_get_max_threads()
 
 
+def _pool_index(words, n, pool):
+    """n pseudo-random indices into the pool: vectorised splitmix64 of the case words (pure function of the case)."""
+    seed = (int(words[0]) * 0x9E3779B97F4A7C15 + int(words[-1]) + 0x632BE59BD9B4E019) & _M64
+    with np.errstate(over='ignore'):
+        z = np.uint64(seed) + np.arange(1, n + 1, dtype=np.uint64) * np.uint64(0x9E3779B97F4A7C15)
+        z = (z ^ (z >> np.uint64(30))) * np.uint64(0xBF58476D1CE4E5B9)
+        z = (z ^ (z >> np.uint64(27))) * np.uint64(0x94D049BB133111EB)
+        z = z ^ (z >> np.uint64(31))
+    return (z % np.uint64(pool)).astype(np.int64)
+
+
+def _mismatch(out, ref):
+    """boolean array: element differs bit-wise (NaN == NaN whatever the payload)"""
+    a, b = out.view(np.float64), ref.view(np.float64)
+    eq = (out.view(np.uint64) == ref.view(np.uint64)) | (np.isnan(a) & np.isnan(b))
+    return ~(eq.reshape(-1, 2).all(axis=1))
+
+
 def _evaluate_array(case):
+    """Array helper == scalar call, element by element, for every length.
+
+    n <= LONG_N: every element is an independent draw and is compared with its own scalar call.  Longer arrays
+    (up to 3 x 2^20) are built by indexing a pool of POOL independent draws with pseudo-random indices; the reference
+    is the scalar call on each pool value, indexed the same way - still an element-wise, bit-exact comparison of all n
+    outputs (the output buffer is pre-filled with NaN, so an element the helper never wrote differs as well), at the
+    price of POOL scalar calls instead of n."""
     model, args = case['model'], [float(a) for a in case['args']]
     n, k = int(case['n']), int(case['threads'])
     which = case['which']
     c = Collector(labels=['model:' + model, 'array:' + which], nontrivial=(k >= 2 and n >= 2 * k))
     w0, mu0, eta0 = float(case['w']), float(case['mu']), float(case['eta'])
-    wv, muv, etav = _array_inputs(case)
+    long_case = n > LONG_N
+    if long_case:
+        c.label('array:long', 'len:>2^20' if n > 2 ** 20 else ('len:2^16..2^20' if n >= 2 ** 16 else 'len:<2^16'))
+        pw, pmu, peta = _array_inputs(dict(case, n=POOL))
+        idx = _pool_index(case['words'], n, POOL)
+        wv = None if pw is None else np.ascontiguousarray(pw[idx])
+        muv = None if pmu is None else np.ascontiguousarray(pmu[idx])
+        etav = None if peta is None else np.ascontiguousarray(peta[idx])
+    else:
+        wv, muv, etav = _array_inputs(case)
+        pw, pmu, peta, idx = wv, muv, etav, None
     with repo_call('construct'):
         inst = _instance(model, args)
     out = np.full(n, complex(math.nan, math.nan), dtype=np.complex128)
+    repeats = (ARRAY_REPEATS if not long_case else 1) if k > 1 else 1
     try:
         got_k = _set_threads(k)
         unstable = 0
@@ -662,14 +717,15 @@ def _evaluate_array(case):
             nthreads = _os_threads()
             # repeat under the same team size: every repetition must reproduce the first result bit for bit
             rep = np.empty_like(out)
-            for _ in range(ARRAY_REPEATS if k > 1 else 1):
+            for _ in range(repeats):
                 rep.fill(complex(math.nan, math.nan))
                 if which == 'frequency':
                     inst.vectorize_frequency(wv, mu0, eta0, rep)
                 else:
                     inst.vectorize_modulus_viscosity(w0, muv, etav, rep)
-                if rep.tobytes() != out.tobytes():
+                if _mismatch(rep, out).any():
                     unstable += 1
+            del rep
     finally:
         _set_threads(1)
     if got_k == k and (k == 1 or nthreads >= k):
@@ -679,17 +735,30 @@ def _evaluate_array(case):
         c.label('threads:unverified')
         c.nontrivial = False
     c.check(unstable == 0, {'model': model, 'clause': 'consistent', 'what': 'vectorize_not_reproducible'},
-            '%s.vectorize_%s with %d threads, n=%d: %d of %d repetitions differ from the first call' % (model, which, k, n, unstable, ARRAY_REPEATS))
-    # scalar reference, element by element
-    bad = []
+            '%s.vectorize_%s with %d threads, n=%d: %d of %d repetitions differ from the first call' % (model, which, k, n, unstable, repeats))
+    # scalar reference: one scalar call per independent draw, then element by element over the whole output
+    npool = len(pw) if which == 'frequency' else len(pmu)
+    pool_ref = np.empty(npool, dtype=np.complex128)
     with repo_call(model + '.__call__'):
-        for i in range(n):
-            s = inst(float(wv[i]), mu0, eta0) if which == 'frequency' else inst(w0, float(muv[i]), float(etav[i]))
-            if not _same_bits(s, out[i]):
-                bad.append((i, complex(s), complex(out[i])))
-    c.check(not bad, {'model': model, 'clause': 'consistent', 'what': 'vectorize_' + ('frequency' if which == 'frequency' else 'modulus_viscosity')},
-            '%s.vectorize_%s with %d threads, n=%d: %d element(s) differ from the scalar call, first: index %d scalar %r array %r'
-            % ((model, which, k, n, len(bad)) + (bad[0] if bad else (0, 0, 0))))
+        for i in range(npool):
+            pool_ref[i] = inst(float(pw[i]), mu0, eta0) if which == 'frequency' else inst(w0, float(pmu[i]), float(peta[i]))
+    nbad, first, unwritten = 0, None, 0
+    step = 1 << 18
+    for lo in range(0, n, step):
+        hi = min(n, lo + step)
+        ref = pool_ref[lo:hi] if idx is None else pool_ref[idx[lo:hi]]
+        mm = _mismatch(out[lo:hi], ref)
+        if mm.any():
+            nbad += int(mm.sum())
+            o = out[lo:hi]
+            unwritten += int((mm & np.isnan(o.real) & np.isnan(o.imag) & ~np.isnan(ref.real)).sum())
+            if first is None:
+                j = int(np.argmax(mm))
+                first = (lo + j, complex(ref[j]), complex(o[j]))
+    c.check(nbad == 0, {'model': model, 'clause': 'consistent', 'what': 'vectorize_' + ('frequency' if which == 'frequency' else 'modulus_viscosity')},
+            '%s.vectorize_%s with %d threads, n=%d: %d element(s) differ from the scalar call (%d of them never written: still the NaN '
+            'the buffer was pre-filled with), first: index %d scalar %r array %r'
+            % ((model, which, k, n, nbad, unwritten) + (first if first else (0, 0, 0))))
     # three elements against the law as well
     for i in sorted({0, n // 2, n - 1}):
         w, mu, eta = (float(wv[i]), mu0, eta0) if which == 'frequency' else (w0, float(muv[i]), float(etav[i]))
